@@ -497,7 +497,10 @@ func (x *gen) malformed(b built, pver uint32, enc string, p []byte) {
 			lim := countLimit(kind)
 			vals := []uint64{c + 1, lim + 1, 0xffffffff, 0x100000000, ^uint64(0)}
 			if !heavyCap(kind) {
-				vals = append(vals, lim-1, lim, 0xffff, 0x10000)
+				vals = append(vals, 0xffff, 0x10000)
+				if lim*44 < 100000 || r.Chance(1, 6) {
+					vals = append(vals, lim-1, lim)
+				}
 			}
 			for _, v := range vals {
 				if heavyCap(kind) && v != c+1 && v <= lim {
@@ -553,7 +556,11 @@ func (x *gen) messageLevel(b built, pver uint32, enc string, p []byte) {
 		cmds := [][]byte{[]byte("bogus"), []byte(b.kind + "x"), append([]byte(b.kind), 0, 'x'), {0xff, 0xfe}, []byte("VERSION"), {}, []byte("abcdefghijkl"), append([]byte{0}, []byte(b.kind)...)}
 		x.msgCase("msg-badcommand", pver, net, enc, frameMsg(net, cmds[r.Intn(len(cmds))], uint32(len(p)), ck, p))
 	case 3:
-		for _, l := range []uint32{uint32(len(p)) + 1, uint32(len(p)) - 1, 4000000, 4000001, 0xffffffff, 33554432, 33554433} {
+		ls := []uint32{uint32(len(p)) + 1, uint32(len(p)) - 1, 4000000, 4000001, 0xffffffff, 33554432, 33554433}
+		if len(p) > 2000 {
+			ls = []uint32{uint32(len(p)) + 1, uint32(len(p)) - 1, ls[2+r.Intn(5)]}
+		}
+		for _, l := range ls {
 			x.msgCase("msg-lenlie", pver, net, enc, frameMsg(net, []byte(b.kind), l, ck, p))
 		}
 	case 4:
@@ -611,9 +618,11 @@ func (x *gen) hostile() {
 			x.dec("hostile-tx", "tx", 70016, e, cat(z(4), vi(1), z(36), vi(nsz), z(10)), true)
 			x.dec("hostile-tx", "tx", 70016, e, cat(z(4), []byte{0, 1}, vi(1), in1, vi(0), vi(nwit)), true)
 			x.dec("hostile-tx", "tx", 70016, e, cat(z(4), []byte{0, 1}, vi(1), in1, vi(0), vi(1), vi(nsz)), true)
-			x.dec("hostile-tx", "tx", 70016, e, cat(z(4), []byte{0, 1}, vi(nin)), true)
 			x.dec("hostile-block", "block", 70016, e, cat(z(80), vi(ntx)), true)
-			x.dec("hostile-block", "block", 70016, e, cat(z(80), vi(2), z(4), vi(nin)), true)
+			if d > 0 || x.g.Thorough() {
+				x.dec("hostile-tx", "tx", 70016, e, cat(z(4), []byte{0, 1}, vi(nin)), true)
+				x.dec("hostile-block", "block", 70016, e, cat(z(80), vi(2), z(4), vi(nin)), true)
+			}
 		}
 		x.dec("hostile-list", "inv", 70016, "b", vi(uint64(wire.MaxInvPerMsg+d)), true)
 		x.dec("hostile-list", "headers", 70016, "b", vi(uint64(wire.MaxBlockHeadersPerMsg+d)), true)
@@ -635,6 +644,9 @@ func (x *gen) hostile() {
 	// the same claims through the message reader, with a correct checksum
 	for _, pl := range [][2]any{{"tx", cat(z(4), vi(uint64(c["maxTxInPerMessage"])))}, {"inv", vi(wire.MaxInvPerMsg)},
 		{"block", cat(z(80), vi(uint64(c["maxTxPerBlock"])))}, {"cfcheckpt", cat(z(33), vi(uint64(c["maxCFHeadersLen"])))}} {
+		if pl[0].(string) == "tx" && !x.g.Thorough() {
+			continue
+		}
 		p := pl[1].([]byte)
 		x.msgCase("hostile-msg", 70016, uint32(wire.MainNet), "w", frameMsg(uint32(wire.MainNet), []byte(pl[0].(string)), uint32(len(p)), chainhash.DoubleHashB(p)[:4], p))
 	}
@@ -792,7 +804,7 @@ func (P) Generate(g *core.Gen) {
 	x.hostile()
 	x.boundary()
 	// structured messages of every kind at every gate version, with their hostile variants
-	rounds := g.N(14, 120)
+	rounds := g.N(10, 120)
 	for round := 0; round < rounds; round++ {
 		for _, kind := range kinds {
 			b := x.build(kind)
